@@ -23,6 +23,8 @@ impl LazyCache {
     ///
     /// The first time this is called, it will compute the hashes.
     pub fn get_pred_data_hashes(&self, solutions: Arc<Vec<Solution>>) -> &HashSet<Hash> {
+        #[cfg(essential_base_verif)]
+        crate::verif::sync_point("lazy_cache.pred_data_hashes");
         self.pred_data_hashes
             .get_or_init(|| init_predicate_exists(solutions).into_iter().collect())
     }
